@@ -643,8 +643,9 @@ class PteraTransformer(NodeTransformer):
         After:
             x: int = _ptera_interact('x', int)
         """
+        value = None if node.value is None else self.visit(node.value)
         return self.make_interaction(
-            node.target, self._ann(node.annotation), node.value, orig=node
+            node.target, self._ann(node.annotation), value, orig=node
         )
 
     def visit_Assign(self, node):
@@ -680,6 +681,10 @@ class PteraTransformer(NodeTransformer):
                     )
                 )
             return accum
+
+        # The right-hand side may itself contain assignment expressions
+        # or yields that must be instrumented.
+        node.value = self.visit(node.value)
 
         targets = node.targets
         if len(targets) > 1:
